@@ -24,19 +24,13 @@ Definition wf_n (n : net) : bool :=
   | Net6 a l _ => wf_netb 128 a l
   end.
 
-(* IPv6: the domain on which coverage is expected to hold (every completely fixed 16-bit group of the
-   nibble-aligned subnets is non-zero); its complement is the input class of known finding D20.
-   Coverage is PROVED only for prefix lengths 0 and 128 (proved6, theorem C18_v6_cover_partial). *)
-Definition fixed_groups_nonzero (a len : N) : bool :=
-  forallb (fun g => negb (g =? 0)) (firstn (N.to_nat ((len + (4 - len mod 4) mod 4) / 16)) (groups6 a)).
-Definition stable6 (n : net) : bool :=
-  match n with
-  | Net6 a l None => wf_netb 128 a l && fixed_groups_nonzero a l
-  | _ => false
-  end.
+(* IPv6: the premises of theorem C18_v6_cover, exactly: well-formed network, every completely fixed
+   group of every enumerated subnet non-zero (Spec.Net.fixed_nonzero6), and no scope id on a /128.
+   The complement of fixed_nonzero6 is the input class of known finding D20. *)
 Definition proved6 (n : net) : bool :=
   match n with
-  | Net6 a l None => wf_netb 128 a l && ((l =? 0) || (l =? 128))
+  | Net6 a l sc => wf_netb 128 a l && fixed_nonzero6 a l &&
+                   (negb (l =? 128) || match sc with None => true | Some _ => false end)
   | _ => false
   end.
 
@@ -57,7 +51,10 @@ Definition judge_expand (c : str * expect * outcome (net * list str) * list (N *
     wf_n n &&
     match n with
     | Net4 a l => exact_cover4 a l pats
-    | Net6 a l _ => forallb (fun at_ => negb (in_netb 128 a l (fst at_)) || covered pats (snd at_)) samples
+    | Net6 a l sc =>
+        (* the only address of a scoped /128 is written with its scope id *)
+        let suffix := match sc with Some z => if l =? 128 then c_pcnt :: z else [] | None => [] end in
+        forallb (fun at_ => negb (in_netb 128 a l (fst at_)) || covered pats (snd at_ ++ suffix)) samples
     end in
   let spec :=
     match e, r with
